@@ -10,12 +10,12 @@ MANIFEST_META = {
         "guard": "verif",
         "enable": "go test -c -tags verif in /verif/harness (module verifharness, replace github.com/benbjohnson/litestream => /repo)",
         "baseline_off_cmd": "/verif/tools/baseline.sh",
-        "source_commits": [],
+        "source_commits": ["18eadf4"],
         "add_only": True,
     },
     "not_applicable": {},
     "pending_reason": "check not built yet in this session (see DESIGN.md section 4 for the planned generated-input check); not claimed until it runs silently on the unchanged tree",
-    "notes": "Fix commits in /repo: 25088cd (C02 snapshot position). Known findings: known_findings.txt. See DESIGN.md.",
+    "notes": "Fix commits in /repo: 25088cd (C02 snapshot position). Hook commits: 18eadf4. Known findings: known_findings.txt. See DESIGN.md.",
 }
 
 PROPS = {
@@ -189,6 +189,23 @@ PROPS = {
         "assumptions": ["file replica client only"],
         "runs": [
             {"name": "histories", "test": "TestProp_C07", "kind": "rapid", "checks_quick": 400, "checks_thorough": 15000, "shards": 6},
+        ],
+    },
+    "C15": {
+        "manifest": {
+            "text": "generated histories with compaction, snapshots and level-0 retention; recorded replication time of every TXID taken from the archived level-0 headers; Restore(Timestamp=T) for T at, 1ms around and between those times compared with the ledger state of the TXID selected by the recorded times (never newer; exact when all level-0 files are present; error before the first backup; monotone in T; plan uses no file created at or after T)",
+            "note": "precondition checked per case: recorded times non-decreasing (sandbox clock does not step); 1 in 4 cases goes through CalcRestoreTarget first like the CLI",
+            "technique": "stateful property-based testing (rapid) with a ledger reference model indexed by recorded replication times",
+        },
+        "binary": "props",
+        "level": "exploration",
+        "rule": ("C06 histories with a 2ms sleep before each acknowledged sync, with/without compaction, snapshots and level-0 retention (L0Retention 1ns "
+                 "via Compact(1)); up to 14 targets T per history drawn from {ts(n)-1ms, ts(n), ts(n)+1ms, midpoints, before first, after last}. "
+                 "Non-trivial = T falls strictly inside the TXID range of a compacted file that is present, or equals some ts(n) exactly; "
+                 "distinct = hash of (config, abstracted ops, target picks)."),
+        "assumptions": ["file replica client: CreatedAt is the file mtime set from the LTX header timestamp"],
+        "runs": [
+            {"name": "histories", "test": "TestProp_C15", "kind": "rapid", "checks_quick": 300, "checks_thorough": 10000, "shards": 6},
         ],
     },
 }
